@@ -366,6 +366,7 @@ func runProp(prop, tier, repo, verif string, workers int, seed int64, solverBin,
 		sst.Sat += r.Solver.Sat
 		sst.Unsat += r.Solver.Unsat
 		sst.Unknown += r.Solver.Unknown
+		sst.Errors += r.Solver.Errors
 		sst.TimeS += r.Solver.TimeS
 		if r.Solver.MaxMs > sst.MaxMs {
 			sst.MaxMs = r.Solver.MaxMs
@@ -392,6 +393,9 @@ func runProp(prop, tier, repo, verif string, workers int, seed int64, solverBin,
 		os.WriteFile(f, []byte(sb.String()), 0o644)
 	}
 
+	if sst.Errors > 0 {
+		engineErrs = append(engineErrs, fmt.Sprintf("%d solver error lines (queries answered with an error are inconclusive)", sst.Errors))
+	}
 	// ---- native replay ----
 	tmp, _ := os.MkdirTemp("", "symgo-")
 	defer os.RemoveAll(tmp)
